@@ -113,7 +113,11 @@ func init() {
 			enc = cff.VerifC13EncodeFloat(x)
 			used, got, derr = cff.VerifC13DecodeFloat(enc)
 		}); p {
-			return result{impl: "panic", fail: "real codec panics: " + what, sig: "c13-real-encode-panic"}, nil
+			sig := "c13-real-encode-panic"
+			if strings.HasPrefix(what, "hang") {
+				sig = "c13-real-encode-hang"
+			}
+			return result{impl: "panic", fail: "real codec: " + what, sig: sig}, nil
 		}
 		res := result{impl: vlib.Str(vlib.Hex(enc))}
 		if derr != nil || used != len(enc) {
